@@ -40,6 +40,55 @@ def draw_chain(draw):
     b = gen.Builder(g, cfg)
     n = g.pick([2, 2, 3, 3, 4, 5, 6])
     cur = b.grow(b.heads[0], n, weights=CHAIN_WEIGHTS, wander=0)
+    # adjacent windowed extends that differ in ONE window parameter only (the merge test must see every one):
+    # same partition, order_by permuted; or partition_by=[cols] followed by partition_by=1; or reverse differs
+    if g.boolean(0.35):
+        sch0 = b.schemas[cur]
+        first = None
+        for _ in range(6):
+            cand = gen.step_ordered_window(g, sch0)
+            if cand is not None and len(cand["order_by"]) >= 2:
+                first = cand
+                break
+        if first is not None:
+            first["src"] = cur
+            i1 = b.add(first)
+            if i1 is not None:
+                sch1 = b.schemas[i1]
+                variant = g.pick(["order_permuted", "partition_to_1", "reverse_differs", "partition_dropped_col"])
+                second = {"op": "extend", "order_by": list(first["order_by"]), "partition_by": first.get("partition_by", 1)}
+                if first.get("reverse"):
+                    second["reverse"] = list(first["reverse"])
+                if variant == "order_permuted":
+                    second["order_by"] = list(reversed(first["order_by"]))
+                elif variant == "partition_to_1":
+                    second["partition_by"] = 1
+                elif variant == "reverse_differs":
+                    k = g.pick(first["order_by"])
+                    rv = set(first.get("reverse") or [])
+                    second["reverse"] = sorted(rv ^ {k})
+                    if not second["reverse"]:
+                        second.pop("reverse")
+                elif isinstance(first.get("partition_by"), list) and len(first["partition_by"]) >= 1:
+                    second["partition_by"] = first["partition_by"][:-1] or 1
+                taken = {k for k, _ in first["ops"]} | set(first["order_by"]) | set(first["partition_by"] if isinstance(first.get("partition_by"), list) else [])
+                free_int = [n_ for n_ in g.pool("int") + ["n", "c", "b"] if n_ not in taken]
+                nonnull_num = [c for c in sch0.of_type("int", "float", null=False) if c not in taken]
+                ops2 = []
+                if free_int:
+                    ops2.append([g.pick(free_int), ["call", "_row_number", []]])
+                if nonnull_num and g.boolean():
+                    src_col = g.pick(nonnull_num)
+                    tgt = [n_ for n_ in g.pool(sch0.cols[src_col]["type"]) if n_ not in taken and n_ not in [o[0] for o in ops2] and n_ != src_col]
+                    if tgt:
+                        ops2.append([g.pick(tgt), ["call", "cumsum", [["col", src_col]]]])
+                if ops2:
+                    second["ops"] = ops2
+                    second["src"] = i1
+                    i2 = b.add(second)
+                    cur = i2 if i2 is not None else i1
+                else:
+                    cur = i1
     case = b.finish(cur)
     # linearise: chain = nodes from the table up to the root
     chain = []
